@@ -78,7 +78,7 @@ def sem(q, live):
     if isinstance(q, (query.Term, query.TermRange, query.terms.MultiTerm)) and not isinstance(q, query.NumericRange):
         # byte-level terms (what NumericRange compiles / simplifies to) and terms of the numeric fields are outside the model
         vals = [getattr(q, a, None) for a in ("text", "start", "end")]
-        if q.fieldname not in ("t", "u", "k", "id") or any(v is not None and not isinstance(v, str) for v in vals):
+        if q.fieldname not in ("t", "u", "k", "id", "kind") or any(v is not None and not isinstance(v, str) for v in vals):
             raise model.Undecided("byte-level term")
     if isinstance(q, query.Phrase) and not q.words:
         return set()      # a phrase without words matches nothing (Phrase.normalize() -> NullQuery)
@@ -112,9 +112,23 @@ def sem(q, live):
         return sem(q.a, live) & sem(q.b, live)
     if isinstance(q, query.ConstantScoreQuery):
         return sem(q.child, live)
+    if isinstance(q, (query.NestedParent, query.NestedChildren)):
+        if not live or "_parent" not in next(iter(live.values())) or not is_parent_query(q.parents):
+            raise model.Undecided("nested query outside the grouped corpus")
+        inner = sem(q.child, live)
+        if isinstance(q, query.NestedParent):
+            # the parent of every matching document (a matching parent stands for itself)
+            return set(live[k]["_parent"] for k in inner)
+        # all children of the wanted parents
+        return set(k for k, d in live.items() if d["kind"] == "c" and d["_parent"] in inner)
     if isinstance(q, (_cls("compound","CompoundQuery"), _cls("spans","SpanQuery"), _cls("wrappers","WrappingQuery"))):
         raise model.Undecided(type(q).__name__)
     return set(k for k, d in live.items() if model.matches(q, d))
+
+
+def is_parent_query(p):
+    from whoosh import query
+    return type(p) is query.Term and p.fieldname == "kind" and p.text == "p" and p.boost == 1.0
 
 
 def try_sem(q, live):
@@ -142,10 +156,11 @@ class Gen(object):
     mode 'A2': no null-ish leaf, no And node (fielded Every, many ranges allowed)
     mode 'B' : everything"""
 
-    def __init__(self, rng, mode, spans=True):
+    def __init__(self, rng, mode, spans=True, nested=False):
         self.rng = rng
         self.mode = mode
         self.spans = spans
+        self.nested = nested
         self.range_fields = set()
 
     # -- leaves
@@ -279,6 +294,12 @@ class Gen(object):
     def tree(self, depth):
         from whoosh import query
         rng = self.rng
+        if self.nested and rng.random() < (0.5 if depth else 0.2):
+            inner = self.tree(max(0, depth - 1))
+            if rng.random() < 0.5:
+                return query.NestedParent(query.Term("kind", "p"), inner, per_parent_limit=rng.choice([None, None, 1, 2]))
+            # the wanted-parents query must only match parents
+            return query.NestedChildren(query.Term("kind", "p"), query.Require(inner, query.Term("kind", "p")))
         if depth == 0 or rng.random() < 0.25:
             if self.spans and rng.random() < 0.06:
                 return self.span_leafish()
@@ -430,6 +451,8 @@ def rebuild(q, kids):
         n.subqueries = list(kids)
     elif isinstance(q, query.Not):
         n.query = kids[0]
+    elif isinstance(q, query.NestedParent):
+        n.child = kids[0]
     else:
         raise TypeError(type(q))
     return n
@@ -445,6 +468,8 @@ def node_kids(q):
         return list(q.subqueries)
     if isinstance(q, query.Not):
         return [q.query]
+    if isinstance(q, query.NestedParent):
+        return [q.child]   # NestedParent.normalize() normalises its sub-query (NestedChildren has no normalize of its own)
     return None    # leaves and every class without a normalize() of its own (wrappers, spans): one opaque step
 
 
@@ -923,27 +948,73 @@ def check_extra_analysis():
     _checked = True
 
 
+def build_grouped(rng):
+    """A corpus of parent/child groups (IndexWriter.group) for the Nested* queries: every group is a parent document
+    (kind=p) followed by 0..4 children (kind=c); whole groups per commit, no deletions. Model documents carry the key of
+    their parent in '_parent'."""
+    from whoosh import fields
+    from whoosh.filedb.filestore import RamStorage
+    from vf import model
+    schema = model.make_schema()
+    schema.add("kind", fields.ID(stored=True))
+    ix = RamStorage().create_index(schema)
+    live, order, layout = {}, [], []
+    key = 0
+    for _ in range(rng.randint(1, 3)):
+        w = ix.writer()
+        ngroups = rng.randint(1, 5)
+        ndocs = 0
+        for _g in range(ngroups):
+            w.start_group()
+            pkey = None
+            for j in range(1 + rng.randint(0, 4)):
+                d = model.gen_doc(rng, key, maxlen=5)
+                d["kind"] = "p" if j == 0 else "c"
+                if j == 0:
+                    pkey = d["id"]
+                w.add_document(**d)
+                d["_parent"] = pkey
+                live[d["id"]] = d
+                order.append(d["id"])
+                key += 1
+                ndocs += 1
+            w.end_group()
+        w.commit(merge=False)
+        layout.append(ndocs)
+    return model.Built(ix, live, order), layout
+
+
 def run(ctx):
     from vf import model
     model.check_analysis()
     check_extra_analysis()
-    for idx in ctx.cases(quick=22, thorough=170):
+    for idx in ctx.cases(quick=22, thorough=45):
         rng = ctx.rng(idx)
         ctx.reseed_global(idx)
-        h = model.gen_history(rng, ndocs=(4, 40), maxlen=7)
-        add_extra_words(rng, h)
-        wb = {"history": {"commits": [len(c) for c in h["commits"]], "deletes": h["deletes"],
-                          "blocklimit": h["blocklimit"], "storage": h["storage"]}, "case_idx": idx}
-        ok, built = ctx.guard("c15.build", wb, model.build, h)
-        if not ok:
-            continue
+        nested = rng.random() < 0.15
+        if nested:
+            ctx.count("c15.nested.cases")
+            wb = {"history": "grouped corpus (parent + children groups), no deletions", "case_idx": idx}
+            ok, res = ctx.guard("c15.build", wb, build_grouped, rng)
+            if not ok:
+                continue
+            built, layout = res
+            wb["history"] = {"grouped": True, "commits": layout}
+        else:
+            h = model.gen_history(rng, ndocs=(4, 40), maxlen=7)
+            add_extra_words(rng, h)
+            wb = {"history": {"commits": [len(c) for c in h["commits"]], "deletes": h["deletes"],
+                              "blocklimit": h["blocklimit"], "storage": h["storage"]}, "case_idx": idx}
+            ok, built = ctx.guard("c15.build", wb, model.build, h)
+            if not ok:
+                continue
         try:
             with built.ix.searcher() as s:
                 case = Case(ctx, built, s, wb)
                 for _ in range(14):
                     mode = rng.choice(["A1", "A1", "A1", "A2", "B", "B"])
-                    q = Gen(rng, mode).tree(rng.choice([1, 2, 2, 3, 3, 4]))
-                    q2 = Gen(rng, mode).tree(rng.choice([0, 1, 2]))
+                    q = Gen(rng, mode, nested=nested).tree(rng.choice([1, 2, 2, 3, 3, 4]))
+                    q2 = Gen(rng, mode, nested=nested).tree(rng.choice([0, 1, 2]))
                     exp, pop = check_tree(case, rng, q, q2)
                     nontrivial = exp is not None and 0 < len(exp) < len(built.live)
                     if nontrivial:
